@@ -7,6 +7,7 @@ import contextlib
 import io
 import itertools
 import math
+import random
 from fractions import Fraction
 
 import numpy as np
@@ -562,7 +563,46 @@ def correspond(ctx):
     mterms, mmeta = [], []
     dterms, dmeta = [], []
 
-    def add_formula_checks(m, case):
+    # what has been asked of each live parent so far: a failure that a fresh parent does not reproduce is recorded together with
+    # the earlier calls that set up the state (shortest failing suffix, found by re-running in a fresh interpreter)
+    live = {}
+    deferred = []
+    nhist = [0]
+
+    def ops_of(parent):
+        e = live.get(id(parent))
+        if e is None or e[0] is not parent:
+            e = (parent, [])
+            live[id(parent)] = e
+        return e[1]
+
+    def fail(stream, case, what, observed, before=None):
+        f = {"stream": stream, "case": case, "what": what, "observed": observed}
+        if not before or "parent" not in case:
+            corr.failures.append(f)
+            return
+        try:
+            fresh = _replay_case(dict(case), random.Random(0))
+        except Exception:
+            fresh = {"fails": True}
+        if fresh.get("fails"):
+            corr.failures.append(f)               # a fresh parent fails alike: the case stands on its own
+            return
+        corr.hit("failure_depends_on_earlier_calls")
+        nhist[0] += 1
+        if nhist[0] > 4:
+            deferred.append(f)
+            return
+        from .. import histseq
+        steps = [{"parent": case["parent"], "op": o} for o in before] + [{"parent": case["parent"], "case": case}]
+        hist, complaints, reproduced = histseq.minimal_history("c15", steps)
+        if reproduced:
+            corr.failures.append({"stream": stream + ":after_calls", "case": dict(case, after_calls=[st["op"] for st in hist[:-1]]),
+                                  "what": what + " [on a live parent, after the recorded earlier calls]", "observed": observed})
+        else:
+            deferred.append(f)
+
+    def add_formula_checks(m, case, before=None):
         """Molecule.get_molecular_formula with and without its arguments"""
         syms = [str(x) for x in m.symbols]
         for order, chgmult in [(None, None), ("alphabetical", None), ("hill", None), (rng.choice(["Hill", "HILL", "Alphabetical"]), False),
@@ -593,7 +633,7 @@ def correspond(ctx):
                 core = out.split("^")[-1].rstrip("+-")
                 bad = oracle_formula(syms, order or "alphabetical", core)
             if bad:
-                corr.failures.append({"stream": "oracle:get_molecular_formula", "case": fcase, "what": bad, "observed": out})
+                fail("oracle:get_molecular_formula", fcase, bad, out, before)
             try:
                 mterms.append(f"({clist(syms, cstr)}, {cz(as_int(m.molecular_charge))}, {cz(as_int(m.molecular_multiplicity))}, "
                               f"{copt(order, cstr)}, {copt(chgmult, cbool)}, {res})")
@@ -601,14 +641,18 @@ def correspond(ctx):
             except ValueError:
                 corr.hit("outside_model_domain")
 
-    def add_molecule_checks(m, label, case):
-        add_formula_checks(m, case)
+    def add_molecule_checks(m, label, case, before=None):
+        """before: the calls made earlier on the live parent this molecule is (or was extracted from)"""
+        if before is None and label != "sub":
+            before = list(ops_of(m))
+            ops_of(m).append({"op": "checks"})
+        add_formula_checks(m, case, before)
         part = sorted(int(i) for f in m.fragments for i in f) == list(range(len(m.symbols)))
         corr.hit("fragments_partition_the_atoms" if part else "fragments_do_not_partition_the_atoms")
         bad = safely(oracle_electrons, m)
         corr.count("oracle:electrons")
         if bad:
-            corr.failures.append({"stream": "oracle:electrons", "case": case, "what": bad, "observed": {}})
+            fail("oracle:electrons", case, bad, {}, before)
         try:
             e = m.nuclear_repulsion_energy()
             finite = math.isfinite(e)
@@ -618,7 +662,7 @@ def correspond(ctx):
             bad = safely(oracle_nre, m, rng)
             corr.count("oracle:nre")
             if bad:
-                corr.failures.append({"stream": "oracle:nre", "case": case, "what": bad, "observed": {}})
+                fail("oracle:nre", case, bad, {}, before)
         try:
             pm = cpmol(m)
         except ValueError:
@@ -631,8 +675,7 @@ def correspond(ctx):
             if finite:
                 nt = f"({pm}, {cqf(e)}, {clist([m.nuclear_repulsion_energy(k) for k in range(nf)], cqf)}, (1 # 1000000000))"
         except Exception as ex:
-            corr.failures.append({"stream": "oracle:electrons", "case": case, "observed": {},
-                                  "what": f"nelectrons / nuclear_repulsion_energy per fragment raised {ex!r} on a molecule that was returned"})
+            fail("oracle:electrons", case, f"nelectrons / nuclear_repulsion_energy per fragment raised {ex!r} on a molecule that was returned", {}, before)
             return
         eterms.append(et)
         emeta.append(case)
@@ -648,6 +691,8 @@ def correspond(ctx):
         if container:
             case["container"] = container
             corr.hit("call_container:" + container)
+        before = list(ops_of(parent))
+        ops_of(parent).append({"op": "get_fragment", "real": real, "ghost": ghost, "group_fragments": group, "orient": orient, "container": container})
         kw, sub, err, untouched = call_get_fragment(parent, real, ghost, group, orient, container)
         corr.count(stream)
         corr.hit("get_fragment_" + ("ok" if err is None else err))
@@ -655,7 +700,7 @@ def correspond(ctx):
                  + ("ghost_omitted" if ghost == OMIT else "ghost_None" if ghost is None else "ghost_int" if isinstance(ghost, int) else "ghost_list")
                  + "," + ("group_default" if group is None else f"group_{group}") + "," + ("orient_default" if orient is None else f"orient_{orient}"))
         if not untouched:
-            corr.failures.append({"stream": "oracle:" + stream, "case": case, "what": "get_fragment modified the caller's real / ghost lists", "observed": {}})
+            fail("oracle:" + stream, case, "get_fragment modified the caller's real / ghost lists", {}, before)
         group_eff = True if group is None else group          # the documented defaults
         orient_eff = False if orient is None else orient
         rl = [real] if isinstance(real, int) else list(real)
@@ -670,16 +715,15 @@ def correspond(ctx):
             if regular:
                 bad = safely(oracle_fragment, parent, rl, gl, group_eff, orient_eff, sub)
                 if bad:
-                    corr.failures.append({"stream": "oracle:" + stream, "case": case, "what": bad, "observed": {"sub": sub.dict().__repr__()[:600]}})
+                    fail("oracle:" + stream, case, bad, {"sub": sub.dict().__repr__()[:600]}, before)
             if rng.random() < 0.15:
-                add_molecule_checks(sub, "sub", case)
+                add_molecule_checks(sub, "sub", case, before)
         else:
             # the only documented refusals: overlapping / bad selections, and — when parent ghost atoms are made real — a
             # charge / multiplicity that no longer fits the electron count
             ok_refusal = (not regular) or (err == "Validation" and (unghosted or not validated_parent))
             if not ok_refusal:
-                corr.failures.append({"stream": "oracle:" + stream, "case": case,
-                                      "what": f"get_fragment raised {err} for a regular selection on a valid parent", "observed": {"error": err}})
+                fail("oracle:" + stream, case, f"get_fragment raised {err} for a regular selection on a valid parent", {"error": err}, before)
         # the model, through the public entry point's argument glue
         if any(f < 0 for f in rl + gl):
             corr.hit("negative_index_outside_model")
@@ -689,11 +733,10 @@ def correspond(ctx):
             if kw is None:
                 ed = cerr(err)
             else:
-                if not isinstance(kw.get("orient"), bool):
-                    corr.failures.append({"stream": "oracle:" + stream, "case": case, "observed": {"orient": repr(kw.get("orient"))},
-                                          "what": "get_fragment did not hand a boolean `orient` to the constructor"})
+                if not isinstance(kw.get("orient"), (bool, np.bool_)):
+                    fail("oracle:" + stream, case, "get_fragment did not hand a boolean `orient` to the constructor", {"orient": repr(kw.get("orient"))}, before)
                     return
-                ed = f"(Ok ({ccdict(kw)}, {cbool(kw['orient'])}))"
+                ed = f"(Ok ({ccdict(kw)}, {cbool(bool(kw['orient']))}))"
             if sub is not None:
                 geom = kw["geometry"] if kw["orient"] else sub.geometry
                 em = "(Ok %s)" % cpmol_parts(sub.symbols, sub.masses, geom, sub.real, sub.fragments, sub.fragment_charges,
@@ -933,6 +976,10 @@ def correspond(ctx):
     run("C15ord", REQF, "check_order_formula", hterms, hmeta, "string * string * outcome string", 1500, "order_formula",
         lambda t: f"let '(s, o, _) := {t} in order_formula s o")
     corr.exhaustive = False
+    if deferred:
+        corr.hit("history_dependent_failures_not_minimised", len(deferred))
+        if not corr.failures:
+            corr.failures.extend(deferred)        # nothing reproducible was found: still report them
     return corr
 
 
@@ -940,10 +987,43 @@ def search(ctx, corr, reasons):
     return []
 
 
+def _apply_op(parent, o):
+    """one earlier call on a live parent (results and refusals are not looked at)"""
+    try:
+        if o.get("op") == "checks":
+            safely(oracle_electrons, parent)
+            parent.nuclear_repulsion_energy()
+            parent.get_molecular_formula()
+        else:
+            call_get_fragment(parent, o["real"], o["ghost"], o["group_fragments"], o["orient"], o.get("container"))
+    except Exception:
+        pass
+
+
+def run_history(steps):
+    """harness/histseq.py: steps {"parent": spec, "op": call} ..., last {"parent": spec, "case": case}; all on ONE live parent built
+    from the first step's spec; returns the oracle's complaints about the last step"""
+    from qcelemental.models import Molecule
+    parent = quiet(Molecule, **dict(steps[0]["parent"]))
+    for st in steps[:-1]:
+        _apply_op(parent, st["op"])
+    last = steps[-1]
+    if "case" not in last:
+        _apply_op(parent, last["op"])
+        return []
+    r = _replay_case(dict(last["case"], after_calls=[]), random.Random(0), live_parent=parent)
+    return [str(r.get("oracle") or "fails")] if r.get("fails") else []
+
+
 def replay(ctx, rp):
+    return _replay_case(rp["case"], ctx.rng)
+
+
+def _replay_case(case, rng, live_parent=None):
+    """re-run one recorded case; everything is judged anew by the oracles (nothing recorded is used as the expected value).
+    case["after_calls"]: earlier calls to make on the same live parent first."""
     from qcelemental.models import Molecule
     from qcelemental.molutil import molecular_formula_from_symbols
-    case = rp["case"]
     if "formula" in case:
         from qcelemental.molutil import order_molecular_formula
         try:
@@ -961,7 +1041,9 @@ def replay(ctx, rp):
         bad = oracle_formula(case["symbols"], case["order"], out)
         return {"input": case, "implementation": out, "oracle": bad, "fails": bool(bad)}
     pspec = dict(case["parent"])
-    parent = quiet(Molecule, **pspec)
+    parent = live_parent if live_parent is not None else quiet(Molecule, **pspec)
+    for o in case.get("after_calls") or []:
+        _apply_op(parent, o)
     target = parent
     sub = None
     if "history" in case:
@@ -972,7 +1054,15 @@ def replay(ctx, rp):
         if not untouched:
             return {"input": case, "oracle": "get_fragment modified the caller's lists", "fails": True}
         if sub is None:
-            return {"input": case, "implementation": {"error": err}, "oracle": rp.get("what"), "fails": "raised" in (rp.get("what") or "")}
+            rl = [case["real"]] if isinstance(case["real"], int) else list(case["real"])
+            gl = [] if case["ghost"] in (None, OMIT) else ([case["ghost"]] if isinstance(case["ghost"], int) else list(case["ghost"]))
+            nfr = len(parent.fragments)
+            regular = (len(set(rl)) == len(rl) and len(set(gl)) == len(gl) and not (set(rl) & set(gl))
+                       and all(0 <= f < nfr for f in rl + gl) and bool(rl or gl))
+            unghosted = regular and has_ghost_in_real_selection(parent, rl)
+            ok_refusal = (not regular) or (err == "Validation" and (unghosted or not case.get("validated_parent", True)))
+            bad = None if ok_refusal else f"get_fragment raised {err} for a regular selection on a valid parent"
+            return {"input": case, "implementation": {"error": err}, "oracle": bad, "fails": bool(bad)}
         target = sub
     if "molecular_formula" in case:
         mf = case["molecular_formula"]
@@ -987,13 +1077,13 @@ def replay(ctx, rp):
         bad = oracle_formula([str(x) for x in target.symbols], mf["order"] or "alphabetical", core)
         return {"input": case, "implementation": out, "oracle": bad, "fails": bool(bad)}
     if sub is None:
-        bad = safely(oracle_electrons, parent) or safely(oracle_nre, parent, ctx.rng)
+        bad = safely(oracle_electrons, parent) or safely(oracle_nre, parent, rng)
         return {"input": case, "oracle": bad, "fails": bool(bad)}
     rl = [case["real"]] if isinstance(case["real"], int) else list(case["real"])
     gl = [] if case["ghost"] in (None, OMIT) else ([case["ghost"]] if isinstance(case["ghost"], int) else list(case["ghost"]))
     group_eff = True if case["group_fragments"] is None else case["group_fragments"]
     orient_eff = False if case["orient"] is None else case["orient"]
-    bad = safely(oracle_fragment, parent, rl, gl, group_eff, orient_eff, sub) or safely(oracle_electrons, sub) or safely(oracle_nre, sub, ctx.rng)
+    bad = safely(oracle_fragment, parent, rl, gl, group_eff, orient_eff, sub) or safely(oracle_electrons, sub) or safely(oracle_nre, sub, rng)
     return {"input": case, "implementation": repr(sub.dict())[:1500], "oracle": bad, "fails": bool(bad)}
 
 
